@@ -74,6 +74,10 @@ def c15(run):
         "period.* and judged by TLC against KCalendar; bucket classes compared globally over a window of years")
 
 
+# the groups of observations of the `view` driver each property's rules read
+WANTS = {"C08": ["noop"], "C09": ["channels", "cpus"], "C10": ["json", "multi", "channels"], "C20": ["json", "channels", "cpus"]}
+
+
 def parse_family(run, prop, want, rule_text, extra_cases=None, kind=None):
     cases, r = run.mc("MC_Parse", {"KV_WANT": want})
     if kind:
@@ -84,6 +88,7 @@ def parse_family(run, prop, want, rule_text, extra_cases=None, kind=None):
                 if run.tier == "quick" and prop in ("C08", "C09") and (i + run.seed) % 2 != 0:
                     continue
                 c["kind"] = kind
+                c["want"] = WANTS.get(prop, [])
                 if prop == "C10":
                     c["workers"] = list(range(2, 34))
                 f.write(json.dumps(c, ensure_ascii=False) + "\n")
@@ -114,8 +119,18 @@ def parse_family(run, prop, want, rule_text, extra_cases=None, kind=None):
                     parts[rnd.randrange(len(parts))] = rnd.choice(bad)
                 sep = rnd.choice(["", eol, eol + "  " + eol])
                 text = "".join(p + ("" if p.endswith("\n") else eol) + eol + sep for p in parts)
-                f.write(json.dumps({"kind": kind or "parse", "text": text, "claim": "random", "line": 0, "workers": list(range(2, 19)) if prop == "C10" else [2, 7], "channels": True},
+                f.write(json.dumps({"kind": kind or "parse", "text": text, "claim": "random", "line": 0, "workers": list(range(2, 19)) if prop == "C10" else [2, 7], "channels": True,
+                                    "want": WANTS.get(prop, [])},
                                    ensure_ascii=False) + "\n")
+                nbig += 1
+            # documents of several kilobytes (more than a kilobyte per worker of the parallel parser)
+            for i in range(12 if run.tier == "quick" else 300):
+                parts = [rnd.choice(good) for _ in range(rnd.randrange(70, 130))]
+                if want != "valid" and (want == "invalid" or i % 3 == 0) and bad:
+                    parts[rnd.randrange(len(parts))] = rnd.choice(bad)
+                text = "".join(p + ("" if p.endswith("\n") else "\n") + "\n" for p in parts)
+                f.write(json.dumps({"kind": kind or "parse", "text": text, "claim": "random", "line": 0, "workers": [2, 3, 4, 5, 8],
+                                    "channels": True, "want": WANTS.get(prop, [])}, ensure_ascii=False) + "\n")
                 nbig += 1
     run.extra["random_large_documents"] = nbig
     obs = run.drive(cases)
@@ -170,6 +185,14 @@ def c06(run):
                 t = a[:rnd.randrange(len(a) + 1)] + b[rnd.randrange(len(b) + 1):]
             f.write(json.dumps({"kind": "fuzz", "text": t}, ensure_ascii=False) + "\n")
         f.write(json.dumps({"kind": "fuzz", "text": "2020-01-01\n    1h " + "long " * 4000 + "\n"}, ensure_ascii=False) + "\n")
+        # documents of many records with one fault near the beginning and several CPUs (every chunk of the parallel parser
+        # holds complete records; the commands must still refuse the text)
+        bad_docs = [d for d in docs if d.strip()]
+        for i in range(80 if run.tier == "quick" else 3000):
+            parts = [rnd.choice(bad_docs).strip("\n") for _ in range(rnd.randrange(8, 40))]
+            mut = rnd.randrange(0, 3)
+            parts[mut] = parts[mut] + "\n    8:60 - 9:00 broken"
+            f.write(json.dumps({"kind": "fuzz", "text": "\n\n".join(parts) + "\n", "cpus": rnd.choice([2, 3, 4, 8, 16])}, ensure_ascii=False) + "\n")
         # random conforming documents rich in values (should-totals from tiny to huge, entries of every width, open
         # ranges, shifted times, dates around the clock's date), every read-only command incl. the --now variants
         import datetime
@@ -188,7 +211,7 @@ def c06(run):
                 head = d.strftime(rnd.choice(["%Y-%m-%d", "%Y/%m/%d"])) + rnd.choice(shoulds)
                 recs.append(head + "\n" + (rnd.choice(["", "Text #a #c=x\n"])) + "".join("    " + e + "\n" for e in es))
             now = "%sT%02d:%02d:%02d" % (day0.isoformat(), rnd.choice([0, 0, 7, 12, 12, 23]), rnd.choice([0, 1, 30, 59]), rnd.randrange(60))
-            f.write(json.dumps({"kind": "fuzz", "text": "\n".join(recs), "all": True, "now": now}, ensure_ascii=False) + "\n")
+            f.write(json.dumps({"kind": "fuzz", "text": "\n".join(recs), "all": True, "now": now, "cpus": rnd.choice([1, 1, 2, 4])}, ensure_ascii=False) + "\n")
     obs = run.drive(cases, case_timeout=300, env={"KDRIVE_NCMDS": "4" if run.tier == "quick" else "0"})
     flagged = run.judge("Trace_Parse", obs, env={"KV_RULES": "C06"}, chunk=20000)
     run.assumptions = ["coverage-guided mutation is not part of this technique; the input space is the token language, "
@@ -348,6 +371,17 @@ def eval_family(run, rules, modes, rule_text, chunk=1500, flagged=None, finish=T
     flagged = flagged or []
     for mode in modes:
         cases, r = run.mc("MC_Eval", {"KV_MODE": mode}, out_name="cases-%s.ndjson" % mode)
+        if mode == "total":
+            # files of several kilobytes evaluated on a machine with several CPUs (the context then parses in parallel,
+            # more than a kilobyte per worker): same total, same records
+            import datetime
+            tmpl = json.loads(open(cases, encoding="utf-8").readline())
+            with open(cases, "a", encoding="utf-8") as f:
+                for nrec, cpus in ((216, 4), (120, 2), (460, 8)) if run.tier == "quick" else ((216, 4), (120, 2), (460, 8), (217, 4), (300, 3), (1000, 16)):
+                    d0 = datetime.date(2018, 1, 1)
+                    text = "".join("%s\n    1h\n\n" % (d0 + datetime.timedelta(days=k)).isoformat() for k in range(nrec))
+                    c = dict(tmpl, text=text, cpus=cpus, runs=[r for r in tmpl["runs"] if r["id"] in ("json", "total:plain")])
+                    f.write(json.dumps(c, ensure_ascii=False) + "\n")
         obs = run.drive(cases, obs_name="obs-%s.ndjson" % mode)
         run.postprocess(obs, evalparse.postprocess)
         got = run.judge("Trace_Eval", obs, env={"KV_RULES": rules + (",X." if mode == "total" else "")}, chunk=chunk)
@@ -436,10 +470,25 @@ def c20(run):
     with open(cases, "w", encoding="utf-8") as f:
         for c in lines:
             c["kind"] = "view"
+            c["want"] = WANTS["C20"]
             f.write(json.dumps(c, ensure_ascii=False) + "\n")
     obs = run.drive(cases, obs_name="obs-invalid.ndjson")
     run.postprocess(obs, vlib.decode_json_fields)
-    flagged += run.judge("Trace_Parse", obs, env={"KV_RULES": "C10.Json,C20.Stdin"}, chunk=6000)
+    flagged += run.judge("Trace_Parse", obs, env={"KV_RULES": "C10.Json,C20.Stdin,C20.Cpus"}, chunk=6000)
+    # valid input: large documents through standard input and on several CPUs (the JSON document is the same)
+    import random
+    rnd = random.Random(run.seed)
+    pool = [json.loads(l) for l in open(run.mc("MC_Parse", {"KV_WANT": "valid"}, out_name="cases-valid.ndjson")[0], encoding="utf-8") if l.strip()]
+    good = [c["text"] for c in pool if c.get("claim") == "Conforming"]
+    big = run.path("cases-big.ndjson")
+    with open(big, "w", encoding="utf-8") as f:
+        for i in range(60 if run.tier == "quick" else 1500):
+            parts = [rnd.choice(good) for _ in range(rnd.randrange(3, 30) if i % 4 else rnd.randrange(70, 130))]
+            text = "".join(p + ("" if p.endswith("\n") else "\n") + "\n" for p in parts)
+            f.write(json.dumps({"kind": "view", "text": text, "claim": "random", "line": 0, "workers": [2, 5], "want": WANTS["C20"]}, ensure_ascii=False) + "\n")
+    obs2 = run.drive(big, obs_name="obs-big.ndjson")
+    run.postprocess(obs2, vlib.decode_json_fields)
+    flagged += run.judge("Trace_Parse", obs2, env={"KV_RULES": "C20.Stdin,C20.Cpus"}, chunk=6000)
     run.assumptions = ["well-formedness of the JSON text is decided by Python's json module (an independent parser) before TLC sees the value"]
     return vlib.finish(run, flagged, rule_text="`klog json` on every generated evaluation file (all entry kinds, tags, filters, --sort, --now, "
         "--pretty for invalid input): one well-formed document, exactly one of records/errors non-null, every field of every record and "
@@ -550,6 +599,15 @@ def c07(run):
                 text = text.replace("\n", "\r\n")
             L = len(text.encode("utf-8"))
             f.write(json.dumps({"kind": "parse", "text": text, "workers": list(range(2, 19)) + [L // 3, L // 2 + 1]}, ensure_ascii=False) + "\n")
+        # documents of several kilobytes: more than a kilobyte per worker, many blocks per chunk
+        for i in range(20 if run.tier == "quick" else 400):
+            parts = [rnd.choice(good).strip("\n") for _ in range(rnd.randrange(70, 160))]
+            if i % 3 == 0:
+                parts[rnd.randrange(len(parts))] = rnd.choice(bad).strip("\n")
+            text = "".join(p + "\n" + rnd.choice(["\n", "\n", "\n\n", "\n \n"]) for p in parts)
+            if i % 4 == 1:
+                text = text.replace("\n", "\r\n")
+            f.write(json.dumps({"kind": "parse", "text": text, "workers": [2, 3, 4, 5, 6, 7, 8, 12, 16]}, ensure_ascii=False) + "\n")
         # one heavy case: every arrival order for 6 workers (720) on a multi-record document
         if run.tier == "thorough":
             for c in sched[:40]:
